@@ -293,3 +293,14 @@ func TestLitmusPanicAndFatal(t *testing.T) {
 	}
 	wantOutcomes(t, explore(t, "panic", 1, false, body), "panic", "fatal", "survived")
 }
+
+// A deadlock detected while the last runnable thread is exiting (inside its exit hand-off) must end the execution.
+func TestLitmusDeadlockAtThreadExit(t *testing.T) {
+	body := func() string {
+		ch := make(chan int)
+		mcrt.Go(func() {}) // exits; main is then blocked forever on ch
+		mcrt.Recv(ch)
+		return "unreachable"
+	}
+	wantOutcomes(t, explore(t, "deadlock-at-exit", 1, false, body), "deadlock")
+}
